@@ -58,7 +58,7 @@ def judge(case, im, mo):
         if "ok" in mo["pkg"] and im["spice"] != mo["pkg"]["ok"]:
             yield ("oracle", {"why": "the netlist text reads differently from Sem.pkg (netlister reading mis-modelled?)",
                               "spice": im["spice"], "pkg": mo["pkg"]})
-    elif "spice_error" in im and "physical `hdl21.Primitive`" not in im["spice_error"]:
+    elif "spice_error" in im and "physical `hdl21.Primitive`" not in im["spice_error"] and "Conflicting ExternalModule" not in im["spice_error"]:
         # (vlsirtools refuses to netlist *physical* generic primitives by design: compile to a PDK first)
         yield ("corr", f"spice netlisting failed: {im['spice_error']}")
 
